@@ -223,11 +223,37 @@ func allocSource(a *ssa.Alloc) ssa.Value {
 			src = st.Val
 		}
 	}
-	if n == 1 {
-		switch src.(type) {
+	if n != 1 {
+		return nil
+	}
+	// an effectively-final local (`s := c.s` captured by a closure): the stored value is a
+	// parameter, a captured variable, or a field chain rooted at one
+	v := src
+	for i := 0; i < 10; i++ {
+		switch x := v.(type) {
 		case *ssa.Parameter, *ssa.FreeVar:
 			return src
+		case *ssa.UnOp:
+			if x.Op != token.MUL {
+				return nil
+			}
+			v = x.X
+			continue
+		case *ssa.FieldAddr:
+			v = x.X
+			continue
+		case *ssa.Alloc:
+			if x == a {
+				return nil
+			}
+			inner := allocSource(x)
+			if inner == nil {
+				return nil
+			}
+			v = inner
+			continue
 		}
+		return nil
 	}
 	return nil
 }
